@@ -128,6 +128,7 @@ def clauses(s, syms, positions, segs, spans, ms, bs):
     return bad
 
 
+@core.guarded(lambda syms, ms, bs, *a, **k: dict(symbols=[list(x) for x in syms], minScore=ms, breakSegmentThreshold=bs))
 def check_case(syms, ms, bs, acc, positions=None):
     s = [v for _, v in syms]
     if positions is None:
